@@ -80,6 +80,10 @@ pub enum Ev {
     Deliver { slot: Slot, bytes: Vec<u8> },
     Resp(String),
     Fault(usize),
+    /// async: rx_continuous() started inside a transaction (between TX and RX1, or between the windows)
+    /// although the radio's last configuration event is not a continuous receive set-up (the
+    /// transmission, a single-shot window or low power came after it). Never recorded otherwise.
+    ListenUnarmed,
 }
 
 impl Ev {
@@ -97,6 +101,7 @@ impl Ev {
             Ev::Deliver { slot, bytes } => json!({"deliver": slot.name(), "bytes": verif_core::hex(bytes)}),
             Ev::Resp(s) => json!({"response": s}),
             Ev::Fault(k) => json!({"radio_fault_at_call": k}),
+            Ev::ListenUnarmed => json!("rx_continuous_without_continuous_setup"),
         }
     }
 }
@@ -205,7 +210,7 @@ impl Env {
                 inner.last_window = Some(*rf);
                 inner.rxc_armed = false;
             }
-            Ev::LowPower => inner.rxc_armed = false,
+            Ev::LowPower | Ev::Tx { .. } => inner.rxc_armed = false,
             _ => {}
         }
         inner.trace.push(e);
